@@ -202,7 +202,9 @@ def model_check(chk):
     """All reachable states of the (abstract, concrete) pair on two 3-class sub-lattices."""
     for lat in (['chain', 'multi', 'diamond'] if chk.tier == 'thorough' else ['multi']):
         wd = os.path.join(chk.workdir, 'mc-' + lat)
-        cfg = MC_CFG % dict(NP=2, MAXP=1 if chk.tier == 'quick' else 2, EMIT='FALSE', HL=0, LAT=lat, EXTRA=INVS)
+        # (the 4-class diamond with two predicate registrations does not finish: one there)
+        cfg = MC_CFG % dict(NP=2, MAXP=1 if (chk.tier == 'quick' or lat == 'diamond') else 2, EMIT='FALSE', HL=0, LAT=lat,
+                            EXTRA=INVS)
         r = common.run_tlc('RegistryMC', cfg, wd, workers=common.NCPU, heap='6g',
                            extra=['-coverage', '1'] if chk.tier == 'thorough' else [])
         chk.add_tlc(r)
